@@ -125,6 +125,26 @@ static size_t init_bmp_header(WindowsBitmapHeader& header,
   return header_size;
 }
 
+// Expands gray (or gray+alpha) samples stored at the beginning of data into
+// RGB (or RGBA) pixels in place. Pixels are processed from the end, and each
+// pixel's samples are read before anything is written, so no unexpanded sample
+// is overwritten.
+template <typename T>
+static void expand_gray_samples(T* data, size_t pixel_count, bool has_alpha) {
+  size_t dest_stride = has_alpha ? 4 : 3;
+  size_t src_stride = has_alpha ? 2 : 1;
+  for (size_t z = pixel_count; z-- > 0;) {
+    T v = data[z * src_stride];
+    T a = has_alpha ? data[z * src_stride + 1] : 0;
+    data[z * dest_stride + 0] = v;
+    data[z * dest_stride + 1] = v;
+    data[z * dest_stride + 2] = v;
+    if (has_alpha) {
+      data[z * dest_stride + 3] = a;
+    }
+  }
+}
+
 void Image::load(FILE* f) {
   char sig[2];
   freadx(f, sig, 2);
@@ -242,15 +262,19 @@ void Image::load(FILE* f) {
       new_channel_width = 8;
     }
 
+    // Grayscale files hold one sample (plus alpha) per pixel, but the buffer
+    // must be large enough for the expanded color data, which is done in place
+    // after reading.
     DataPtrs new_data;
-    size_t channels_factor = (format == Format::COLOR_PPM ? 3 : 1) + (new_has_alpha ? 1 : 0);
-    new_data.raw = malloc(new_width * new_height * channels_factor * (new_channel_width / 8));
+    size_t src_channels = (format == Format::COLOR_PPM ? 3 : 1) + (new_has_alpha ? 1 : 0);
+    size_t dest_channels = new_has_alpha ? 4 : 3;
+    size_t pixel_count = new_width * new_height;
+    new_data.raw = malloc(pixel_count * dest_channels * (new_channel_width / 8));
     if (!new_data.raw) {
       throw bad_alloc();
     }
     try {
-      freadx(f, new_data.raw,
-          new_width * new_height * channels_factor * (new_channel_width / 8));
+      freadx(f, new_data.raw, pixel_count * src_channels * (new_channel_width / 8));
     } catch (const exception&) {
       free(new_data.raw);
       throw;
@@ -271,44 +295,14 @@ void Image::load(FILE* f) {
     // do so, we copy the gray channel to all color channels starting from the
     // end of the image (so we won't incorrectly overwrite unexpanded data).
     if (format == Format::GRAYSCALE_PPM) {
-      size_t dest_stride = this->has_alpha ? 4 : 3;
-      size_t src_stride = this->has_alpha ? 2 : 1;
-      for (ssize_t y = this->height - 1; y >= 0; y--) {
-        for (ssize_t x = this->width - 1; x >= 0; x--) {
-          if (this->channel_width == 8) {
-            uint8_t v = this->data.as8[y * this->width * src_stride + x];
-            this->data.as8[(y * this->width + x) * dest_stride + 0] = v;
-            this->data.as8[(y * this->width + x) * dest_stride + 1] = v;
-            this->data.as8[(y * this->width + x) * dest_stride + 2] = v;
-            if (this->has_alpha) {
-              this->data.as8[(y * this->width + x) * dest_stride + 3] = this->data.as8[y * this->width * src_stride + x + 1];
-            }
-          } else if (this->channel_width == 16) {
-            uint8_t v = this->data.as16[y * this->width * src_stride + x];
-            this->data.as16[(y * this->width + x) * dest_stride + 0] = v;
-            this->data.as16[(y * this->width + x) * dest_stride + 1] = v;
-            this->data.as16[(y * this->width + x) * dest_stride + 2] = v;
-            if (this->has_alpha) {
-              this->data.as16[(y * this->width + x) * dest_stride + 3] = this->data.as16[y * this->width * src_stride + x + 1];
-            }
-          } else if (this->channel_width == 32) {
-            uint8_t v = this->data.as32[y * this->width * src_stride + x];
-            this->data.as32[(y * this->width + x) * dest_stride + 0] = v;
-            this->data.as32[(y * this->width + x) * dest_stride + 1] = v;
-            this->data.as32[(y * this->width + x) * dest_stride + 2] = v;
-            if (this->has_alpha) {
-              this->data.as32[(y * this->width + x) * dest_stride + 3] = this->data.as32[y * this->width * src_stride + x + 1];
-            }
-          } else if (this->channel_width == 64) {
-            uint8_t v = this->data.as64[y * this->width * src_stride + x];
-            this->data.as64[(y * this->width + x) * dest_stride + 0] = v;
-            this->data.as64[(y * this->width + x) * dest_stride + 1] = v;
-            this->data.as64[(y * this->width + x) * dest_stride + 2] = v;
-            if (this->has_alpha) {
-              this->data.as64[(y * this->width + x) * dest_stride + 3] = this->data.as64[y * this->width * src_stride + x + 1];
-            }
-          }
-        }
+      if (this->channel_width == 8) {
+        expand_gray_samples(this->data.as8, pixel_count, this->has_alpha);
+      } else if (this->channel_width == 16) {
+        expand_gray_samples(this->data.as16, pixel_count, this->has_alpha);
+      } else if (this->channel_width == 32) {
+        expand_gray_samples(this->data.as32, pixel_count, this->has_alpha);
+      } else if (this->channel_width == 64) {
+        expand_gray_samples(this->data.as64, pixel_count, this->has_alpha);
       }
     }
 
